@@ -115,6 +115,10 @@ class SymCx(BaseCx):
             return x
         return SymReal.const(Fraction(x))
 
+    def angle(self, name, index=0):
+        """an angle in degrees (any real); its cos/sin are the symbolic pair (cos!index, sin!index) on the unit circle"""
+        return self.real(name)
+
     def assume(self, cond, check=True):
         self.eng.assume(cond, check=check)
 
@@ -209,6 +213,14 @@ class ConcCx(BaseCx):
 
     def const(self, x):
         return _float(x)
+
+    def angle(self, name, index=0):
+        """replay: the angle is recovered from the model's (cos, sin) pair"""
+        import math
+        c, s = self.values.get('cos!%d' % index), self.values.get('sin!%d' % index)
+        if c is not None and s is not None:
+            return math.degrees(math.atan2(_float(Fraction(s)), _float(Fraction(c))))
+        return self.real(name)
 
     def assume(self, cond, check=True):
         if not cond:
